@@ -449,6 +449,8 @@ class World:
         self.gate_attempt: dict = {}  # pid -> gates at the first attempt of each step
         self.build_log: dict = {}  # pid -> [[step, "ok" | exception class | "abort", op index]]
         self.cur_build_step = None
+        self.limit_set = None
+        self.limit_foreign = False
         self.hr_rng = random.Random(job["hr_seed"]) if job.get("hr_seed") is not None else None
 
     def fired(self, kind):
@@ -474,7 +476,16 @@ class World:
             if hr is None:
                 hr = self.hr_rng.randrange(0, 48) if self.hr_rng is not None else 0
                 op["hr"] = hr
-            sys.setrecursionlimit(_depth() + HEADROOM + hr)
+            cur = sys.getrecursionlimit()
+            if self.limit_set is not None and cur != self.limit_set:
+                # somebody else (the library under test) changed the interpreter's recursion limit and
+                # left it changed: that is process state like any other - the harness stops owning it
+                if not self.limit_foreign:
+                    Probes.hit("recursion_limit_changed_behind_the_harness")
+                self.limit_foreign = True
+            if not self.limit_foreign:
+                self.limit_set = _depth() + HEADROOM + hr
+                sys.setrecursionlimit(self.limit_set)
         if k == "build":
             env = self.env(op["p"])
             i = env.next_step
@@ -674,6 +685,7 @@ class World:
             finally:
                 self.in_reclimit_fault = False
                 sys.setrecursionlimit(old)
+                self.limit_set = old if not self.limit_foreign else self.limit_set
             if out[0] == "err" and out[1] == "RecursionError":
                 self.fired("reclimit")
         else:
